@@ -1,6 +1,7 @@
 import Verif.Gen.Currency
 import Verif.Lemmas.C18
 import Verif.Lemmas.F64
+import Verif.Lemmas.Zcn
 /-! # C18 — currency arithmetic is exact or fails loudly
 
 Every theorem here is about the definitions in `Verif/Gen/Currency.lean`, which `go/xlate` REGENERATES from
@@ -11,7 +12,7 @@ Shape of an integer spec: `f args = if <exact result representable> then .ok <ex
 exact result being computed in `Nat`/`Int` (no wrap-around) and embedded with `BitVec.ofNat 64` — below `2^64` that
 embedding is injective, so the returned bits are pinned. `.panic` never occurs (`no_panic`). -/
 namespace Verif.Props.C18
-open Verif.GoSem Verif.F64 Verif.Dec Verif.Gen Verif.Gen.Currency Verif.Lemmas.C18 Verif.Lemmas.F64
+open Verif.GoSem Verif.F64 Verif.Dec Verif.Gen Verif.Gen.Currency Verif.Lemmas.C18 Verif.Lemmas.F64 Verif.Lemmas.Zcn
 
 /-- pins the set of translated functions: a function added to currency.go must get its theorems here -/
 theorem generated_functions : generatedFunctions =
@@ -333,6 +334,65 @@ theorem tooManyDecimals_iff (d : Dec) (hn : Dec.normal d) : d.exp < -10 ↔ ¬ i
     apply Int.not_le.mp
     intro hle
     exact h (Or.inl hle)
+
+/-! ## format then parse -/
+
+/-- `d` is what `decimal.NewFromFloat(x)` returns for a finite `x`: a decimal that rounds to `x` (`rt`), written
+    without trailing zeros and with zero as `0·10^0` (`normal`), such that no decimal with fewer digits rounds to `x`
+    (`shortest`). The library additionally picks the one closest to `x` among those — not needed here. -/
+structure ShortestRT (x : F64) (d : Dec) : Prop where
+  rt : Dec.float64 d = x
+  normal : Dec.normal d
+  shortest : ∀ d' : Dec, Dec.float64 d' = x → ∀ k : Nat, d'.coeff.natAbs < 10 ^ k → d.coeff.natAbs < 10 ^ k
+
+/-- formatting an amount of at most 15 significant digits (`c = C·10^j`, `C < 10^15`) as ZCN and parsing the result
+    returns the amount: the classical "15 decimal digits survive binary64" argument (`10^15 < 2^52`) -/
+theorem zcn_roundtrip (c : Coin) (h15 : ∃ C j : Nat, c.toNat = C * 10 ^ j ∧ C < 10 ^ 15) (hr : c.toNat < 2 ^ 63) :
+    ∃ z, Coin_ToZCN c = .ok z ∧ ∀ d, ShortestRT z d → ParseZCN z d = .ok c := by
+  refine ⟨roundNE false c.toNat (10 ^ 10), ?_, ?_⟩
+  · rw [toZCN_spec, if_neg (by omega)]
+  · intro d hs
+    by_cases hc0 : c.toNat = 0
+    · -- the zero amount: the float is +0, its shortest decimal in normal form is 0·10^0
+      have hz : (roundNE false c.toNat (10 ^ 10)).val = .fin false 0 (-1074) := by rw [hc0]; exact roundNE_zero _ _
+      have hd0 : Dec.float64 ⟨0, 0⟩ = roundNE false c.toNat (10 ^ 10) := by rw [hc0]; decide
+      have h0 := hs.shortest ⟨0, 0⟩ hd0 0 (by decide)
+      have hco : d.coeff = 0 := by simp at h0; exact h0
+      have hd : d = ⟨0, 0⟩ := by
+        rcases hs.normal with h | h
+        · rw [hco] at h; simp at h
+        · exact h
+      rw [parseZCN_spec, hz, hd]
+      have : c = 0#64 := BitVec.eq_of_toNat_eq (by simpa using hc0)
+      rw [this]; decide
+    · have hN : 0 < c.toNat := by omega
+      obtain ⟨C, j, hC, hC15⟩ := h15
+      have hCpos : 0 < C := by
+        rcases Nat.eq_zero_or_pos C with h | h
+        · rw [h] at hC; simp at hC; omega
+        · exact h
+      obtain ⟨C', i, hC', hC'10⟩ := strip_zeros C hCpos
+      have hNC : c.toNat = C' * 10 ^ (i + j) := by rw [hC, hC', pow_add, mul_assoc]
+      have hC'15 : C' < 10 ^ 15 := by
+        have : C' ≤ C := by rw [hC']; exact Nat.le_mul_of_pos_right _ (by positivity)
+        omega
+      have hd := shortest_unique c.toNat hN c.isLt C' (i + j) hNC hC'15 hC'10 d hs.rt hs.normal hs.shortest
+      obtain ⟨m, e, hz⟩ := roundNE_val_fin false c.toNat (10 ^ 10) (mag_c_bounds c.toNat hN c.isLt).2
+      rw [parseZCN_spec, hz, hd]
+      have hamt : amount ⟨(C' : ℤ), ((i + j : ℕ) : ℤ) - 10⟩ = (c.toNat : ℤ) := by
+        unfold amount
+        have hexp : ((((i + j : ℕ) : ℤ) - 10 + 10).toNat) = i + j := by omega
+        simp only [hexp]
+        rw [hNC]; push_cast; ring
+      unfold parseDec
+      rw [hamt]
+      simp only []
+      rw [if_neg (by omega), if_neg (by omega), if_neg (by unfold maxInt64; omega)]
+      simp
+
+/-- the hypotheses of `zcn_roundtrip` are satisfiable by a non-trivial amount: 1.5 ZCN -/
+example : (∃ C j : Nat, (15000000000#64 : Coin).toNat = C * 10 ^ j ∧ C < 10 ^ 15) ∧ (15000000000#64 : Coin).toNat < 2 ^ 63 :=
+  ⟨⟨15, 9, by decide, by decide⟩, by decide⟩
 
 /-! ## no operation panics -/
 
